@@ -161,6 +161,7 @@ func RunOnce(t *testing.T, sc Scenario, prefix []int, onLeak func(string), demot
 				}
 				fmt.Println()
 			}
+			fmt.Printf("e3outcome %s %s viols=%v\n", sc.Name, strings.Join(e.notes, ";"), e.viols)
 		}
 		res.Outcome = strings.Join(e.notes, ";")
 		res.Diverged = s.Diverged
